@@ -301,7 +301,7 @@ namespace link_layer {
                         return true;
                     }
 
-                    link_layer.defered_ll_control_pdu_     = pdu;
+                    link_layer.defer_ll_control_pdu( pdu );
                     link_layer.defered_conn_event_counter_ = ::bluetoe::details::read_16bit( pdu_body + 3 );
 
                     return true;
@@ -735,6 +735,7 @@ namespace link_layer {
         ll_result handle_ll_control_data( const write_buffer& pdu, read_buffer output );
         // TODO Make handle_pending_ll_control() impossible to fail by checking PDUs immediately
         ll_result handle_pending_ll_control( std::uint16_t instance );
+        void defer_ll_control_pdu( const write_buffer& pdu );
 
         connection_details details() const;
 
@@ -824,6 +825,8 @@ namespace link_layer {
         delta_time                      procedure_timeout_;
         std::uint16_t                   defered_conn_event_counter_;
         write_buffer                    defered_ll_control_pdu_;
+        // the received PDU is released before the instant is reached, so a copy has to be kept
+        std::uint8_t                    defered_ll_control_pdu_copy_[ layout_t::data_channel_pdu_memory_size( 12u ) ];
         connection_data_t               connection_data_;
         bool                            termination_send_;
         std::uint16_t                   used_features_;
@@ -1570,7 +1573,7 @@ namespace link_layer {
                 }
                 else
                 {
-                    defered_ll_control_pdu_ = pdu;
+                    defer_ll_control_pdu( pdu );
                 }
             }
             else if ( opcode == LL_TERMINATE_IND && size == 2 )
@@ -1611,7 +1614,7 @@ namespace link_layer {
                 }
                 else
                 {
-                    defered_ll_control_pdu_ = pdu;
+                    defer_ll_control_pdu( pdu );
                 }
             }
             else if ( opcode == LL_PING_REQ && size == 1 )
@@ -1756,6 +1759,15 @@ namespace link_layer {
         }
 
         return result;
+    }
+
+    template < class Server, template < std::size_t, std::size_t, class > class ScheduledRadio, typename ... Options >
+    void link_layer< Server, ScheduledRadio, Options... >::defer_ll_control_pdu( const write_buffer& pdu )
+    {
+        const std::size_t size = std::min( pdu.size, sizeof( defered_ll_control_pdu_copy_ ) );
+
+        std::copy( pdu.buffer, pdu.buffer + size, &defered_ll_control_pdu_copy_[ 0 ] );
+        defered_ll_control_pdu_ = write_buffer{ &defered_ll_control_pdu_copy_[ 0 ], size };
     }
 
     template < class Server, template < std::size_t, std::size_t, class > class ScheduledRadio, typename ... Options >
